@@ -269,9 +269,18 @@ def run(tier, seed, replay=None):
             rng = random.Random(seed * 11 + i)
             text = progen.generate(seed * 59 + i, lang, {"long_bodies": False})["text"]
             lines = text.split("\n")
+            pad = 0
+            if i % 3 == 2:
+                # a file larger than 64 KiB whose edit lies beyond the first 64 KiB (seeded change C04-14: a checksum of the
+                # first block only)
+                lead = "# generated table, do not edit" if lang == "Python" else "// generated table, do not edit"
+                pad = 70000 // (len(lead) + 1) + 1
+                lines = [lead] * pad + lines
+                text = "\n".join(lines)
+                chk.count("file larger than 64 KiB edited beyond the first 64 KiB")
             mod = list(lines)
             for _ in range(rng.choice([1, 2, 3])):
-                k = rng.randrange(1, len(mod) + 1)          # never before the first line; whatever the edit does to the tokens,
+                k = rng.randrange(pad + 1, len(mod) + 1)    # never before the first line; whatever the edit does to the tokens,
                 mod[k:k] = [rng.choice(["", "", "    ", "\t", "  \t "])] * rng.choice([1, 2, 4])     # cached and fresh must agree
             if mod == lines:
                 continue
